@@ -771,3 +771,23 @@ def hr_order(rules):
         order.append(j + 1)
         done.add(j)
     return order
+
+
+def random_ifds_units(rnd, n):
+    """dataset-level conditional: if DS_cond then a else b (a, b datasets or scalars), conditions that are datasets or comparisons"""
+    units = []
+    for i in range(n):
+        two = rnd.random() < 0.4
+        ids = [('Id_1', 'Integer')] + ([('Id_2', 'String')] if two else [])
+        env = {'DS_c': gen.shuffled(rnd, gen.dataset(rnd, ids, [('Me_1', 'M', 'Boolean')], rnd.choice([0, 2, 5, 8]), keyspace=3, null_p=0.25)),
+               'DS_n': gen.shuffled(rnd, gen.dataset(rnd, ids, [('Me_1', 'M', 'Integer')], rnd.choice([1, 4, 8]), keyspace=3, null_p=0.2))}
+        for nm in ('DS_1', 'DS_2'):
+            env[nm] = gen.shuffled(rnd, gen.dataset(rnd, ids, [('Me_1', 'M', 'Number'), ('Me_2', 'M', 'Integer')], rnd.choice([0, 2, 5, 8]), keyspace=3, null_p=0.2))
+        cond = rnd.choice([var('DS_c'), var('DS_c'), {'k': 'bin', 'op': rnd.choice(['>', '<=', '=']), 'l': var('DS_n'), 'r': const(I(rnd.choice([0, 1, 3])))},
+                           {'k': 'un', 'op': 'not', 'x': var('DS_c')}, {'k': 'un', 'op': 'isnull', 'x': var('DS_n')}])
+        ds1 = rnd.choice([var('DS_1'), var('DS_1'), {'k': 'bin', 'op': rnd.choice(['+', '*']), 'l': var('DS_1'), 'r': const(I(2))}])
+        ds2 = rnd.choice([var('DS_2'), var('DS_2'), {'k': 'un', 'op': '-', 'x': var('DS_2')}])
+        sc = const(I(rnd.choice([0, 1, -7])))
+        a, b = rnd.choice([(ds1, ds2), (ds1, ds2), (ds1, sc), (sc, ds2), (ds1, ds1)])
+        units.append({'id': 'if%d' % i, 'env': env, 'term': {'k': 'if', 'c': cond, 't': a, 'e': b}, 'cc': True})
+    return units
